@@ -12,4 +12,4 @@ for id in "$@"; do
   echo "$id exit=$code $(echo "$out" | grep -E "level=" | sed 's/.*violations/violations/')"
   echo "$out" | grep -E "violation detail|TOOL|cannot|tool error|note:" | cut -c1-330 | head -4
 done
-git -C /repo checkout -- .
+git -C /repo apply -R "$P" 2>/dev/null; git -C /repo checkout -- .
